@@ -77,7 +77,7 @@ func verdict(o fetchx.Outcome) string {
 func main() {
 	n := flag.Int("n", 2, "concurrent requests")
 	sub := flag.String("sub", "", "internalArchiveSrcDir")
-	entry := flag.String("entry", "lib", "lib | wasi")
+	entry := flag.String("entry", "lib", "lib | wasi | esp")
 	faults := flag.Bool("faults", false, "download failures on the menu")
 	jumps := flag.Bool("jumps", false, "clock jumps on the menu")
 	small := flag.Bool("small", false, "two-file archive")
@@ -94,6 +94,7 @@ func main() {
 	flag.Parse()
 	scratch = filepath.Join(scratch, fmt.Sprintf("verif-c20-%d", os.Getpid()))
 	os.MkdirAll(scratch, 0755)
+	os.Setenv("VERIF_SCRATCH", scratch)
 	defer os.RemoveAll(scratch)
 
 	if *replay != "" {
